@@ -19,6 +19,10 @@ type skelConfig struct {
 	funcs    map[string]string // plain function name -> field label it writes (e.g. listUnlink -> usage)
 	callback []string          // selector texts (with "@") of user callbacks
 	atomic   bool              // sync/atomic calls become PAtomic
+	// immutable lists selector NAMES of fields that are read without the lock
+	// and therefore must never be written after publication; every write to
+	// one is recorded as POp "field-write" "<base>.<name>".
+	immutable map[string]bool
 }
 
 type skelGen struct {
@@ -183,6 +187,10 @@ func (g *skelGen) stmt(s ast.Stmt) (out []string) {
 			out = append(out, g.expr(r)...)
 		}
 		for _, l := range x.Lhs {
+			if se, isSel := l.(*ast.SelectorExpr); isSel && g.cfg.immutable[se.Sel.Name] {
+				out = append(out, fmt.Sprintf("SPrim (POp %q %q)", "field-write", selText(se)))
+				continue
+			}
 			if label, ok := g.guardedField(l); ok {
 				if ix, isIx := l.(*ast.IndexExpr); isIx {
 					out = append(out, g.expr(ix.Index)...)
@@ -318,7 +326,8 @@ func init() {
 				funcs: map[string]string{"listInit": "usage", "listFirst": "usage", "listLast": "usage",
 					"listLink2": "usage", "listUnlink": "usage", "listAppend": "usage"},
 				callback: []string{"@.conf.OnDelete"},
-				atomic:   true,
+				atomic:    true,
+				immutable: map[string]bool{"key": true, "value": true},
 			})
 			if err != nil {
 				return "", err
